@@ -154,6 +154,44 @@ empty @is_you(int n, int k) {
 '''
 
 
+def defeat_leak_program():
+    """arrays that are live when defeat strikes (in the try body itself and in a defeat function called from it), under
+    stop and undo handlers, repeated in a loop: whatever the defeat route forgets to give back accumulates"""
+    return UTIL + r'''
+int !risky(int j, int m) {
+    int[] loc = [j, j + 1, j + 2, j + 3];
+    byte pad[5];
+    pad[0] = 'p';
+    !truth_is_defeat(j % m == 0);
+    return loc[3] + j;
+}
+empty @is_you(int n, int m) {
+    int wins = 0;
+    int i = 0;
+    while (i < n) {
+        try {
+            int junk[4];
+            junk[0] = 100 + i;
+            junk[3] = i;
+            !truth_is_defeat(i % m == 1);
+            wins += junk[0] - 99 - junk[3];
+        } stop { write('s'); }
+        try {
+            wins += !risky(i, m) - i - i - 2;
+        } stop { write('r'); }
+        try {
+            int[] q = [i, wins];
+            !truth_is_defeat(i % m == 2);
+            wins += q[0] - i + 1;
+        } undo { write('u'); }
+        i += 1;
+    }
+    writeln(wins);
+    writeln(i);
+}
+'''
+
+
 def recursion_program():
     return UTIL + r'''
 int rec(int n, int[] acc) {
@@ -238,6 +276,8 @@ def cases(seed, count):
         out.append(('const-index', const_index_program(), [str(k % 3), str(k)]))
     for n, k in ((1, 99), (6, 99), (40, 99), (40, 7), (12, 3)):
         out.append(('leak', leak_program(), [str(n), str(k)]))
+    for n, m in ((3, 1), (10, 1), (10, 3), (24, 3), (24, 5), (9, 2)):
+        out.append(('defeat-leak', defeat_leak_program(), [str(n), str(m)]))
     for n in (0, 7, -1, 9999, -32768, 32767, 12345):
         out.append(('stdlib', stdlib_program(), [str(n), str(r.choice([0, 7, 8, 19]))]))
     for n in (0, 3, 8, 22):
